@@ -136,15 +136,9 @@ fn pair_oracle(o: &Outcome) -> (Option<String>, Option<String>) {
     if (o.cstate == 2) != o.export_c.is_some() || (o.sstate == 2) != o.export_s.is_some() {
         return (Some("export_keying_material succeeded outside Connected (or failed inside)".into()), None);
     }
-    // nothing unauthenticated reaches the application
+    // nothing unauthenticated reaches the application (epoch-0 ApplicationData: fixed by 02d1d8d)
     if o.evil_up_c || o.evil_up_s {
-        let before_keys = o.script.rules.iter().any(|r| matches!(&r.act, Act::Then(f) if f.contains(&Forge::PlainAppData))
-            && matches!(r.kind, Kind::SH | Kind::CH));
-        if before_keys {
-            known = Some("plain_appdata_before_auth".to_string());
-        } else {
-            return (Some("forged plaintext ApplicationData was delivered to the application after keys existed".into()), None);
-        }
+        return (Some("forged plaintext (epoch-0) ApplicationData was delivered to the application".into()), None);
     }
     (None, known)
 }
